@@ -4,6 +4,8 @@
 (* dates, column choices).  After every call the driver logged the outcome and the projection of  *)
 (* all registers; the trace specification steps the operators of Dictable.tla over the events and *)
 (* compares outcome, every live table (four observation channels) and the aliasing structure.     *)
+(* Augmented assignments (e += record / table / None) are recorded for names that are the only    *)
+(* one for their object; per-column transforms carry the list of functions (DoFnApply).           *)
 EXTENDS DictableOps, Batch
 
 St0 == [heap |-> <<>>, reg |-> [r \in Regs |-> 0]]
@@ -23,13 +25,18 @@ Apply(st, e) ==
       [] e.op = "Take"      -> DoAlloc(st, e.rd, TakeT(TT(st, e.r), e.pos))
       [] e.op = "Project"   -> DoAlloc(st, e.rd, ProjectT(TT(st, e.r), e.cs))
       [] e.op = "Derive"    -> DoAlloc(st, e.rd, DeriveT(TT(st, e.r), e.c, e.f))
-      [] e.op = "Do"        -> DoAlloc(st, e.rd, DoT(TT(st, e.r), e.cs))
+      [] e.op = "Do"        -> DoAlloc(st, e.rd, DoT(TT(st, e.r), e.fs, e.cs))
       [] e.op = "Rename"    -> DoAlloc(st, e.rd, RenameT(TT(st, e.r), e.c, e.c2))
       [] e.op = "Swap"      -> DoAlloc(st, e.rd, SwapT(TT(st, e.r), e.c, e.c2))
       [] e.op = "Concat"    -> DoAlloc(st, e.rd, ConcatT(TT(st, e.ra), TT(st, e.rb)))
       [] e.op = "AddRecord" -> DoAlloc(st, e.rd, ConcatT(TT(st, e.r), RecordT(e.rec)))
+      [] e.op = "DeriveConst" -> DoAlloc(st, e.rd, SetColT(TT(st, e.r), e.c, e.arg))
+      [] e.op = "DerivePair" -> DoAlloc(st, e.rd, DerivePairT(TT(st, e.r), e.c, e.f, e.c2, e.g))
+      [] e.op = "Minus"     -> DoAlloc(st, e.rd, MinusColsT(TT(st, e.r), e.cs))
+      [] e.op = "IAdd"      -> DoAlloc(st, e.r, ConcatT(TT(st, e.r), TT(st, e.rb)))           \* e += table: the name e holds e + table, nothing else moves
+      [] e.op = "IAddRecord" -> DoAlloc(st, e.r, ConcatT(TT(st, e.r), RecordT(e.rec)))
       [] e.op \in {"Copy", "NoFilter"} -> DoAlloc(st, e.rd, Ok(TT(st, e.r)))
-      [] e.op \in {"AddNone", "ConcatOne"} -> [heap |-> st.heap, reg |-> [st.reg EXCEPT ![e.rd] = st.reg[e.r]], out |-> "ok"]
+      [] e.op \in {"AddNone", "ConcatOne", "IAddNone"} -> [heap |-> st.heap, reg |-> [st.reg EXCEPT ![e.rd] = st.reg[e.r]], out |-> "ok"]
 
 \* the logged projection of one register against the abstract table
 RegVerdict(st, r, p) ==
